@@ -21,6 +21,10 @@ ASSUMPTIONS = [
 ]
 
 WS = [" ", "\t", "\n", "\x0b", "\x0c", "\r", "\x1c", "\x1d", "\x1e", "\x1f"]
+# "with arbitrary whitespace": every character Python's str.isspace() knows (29 in the BMP: no-break space, thin space,
+# ideographic space, line / paragraph separators, ...); the Lean model is ASCII-only, so spellings holding one of these are
+# judged against the name known by construction only
+UWS = [chr(c) for c in range(0x10000) if chr(c).isspace() and ord(chr(c)) > 0x7f]
 MASSES_QUICK = [1, 2, 9, 10, 11, 99, 100, 101, 137, 238, 299, 300]
 FORMS = ["El-As", "ElAs", "AsEl", "As-El", "el-as", "EL-AS", "elas"]
 
@@ -155,6 +159,24 @@ def correspondence(rep, ctx):
                 ctx.broken.append(f"correspondence:{kind}:{x!r}")
                 rep.notes.setdefault("divergences", []).append(
                     {"input": x, "real": real, "model": model_out(model[i])})
+
+    # ---- 3b. non-ASCII whitespace (not sent to the ASCII model): every such character, in every position class
+    for j_ in range(30000 if thorough else 3000):
+        Z, el = r.choice(elements)
+        st = r.choice(states)
+        A = r.randint(1, 300)
+        s = spell(el, str(A), st, r.choice(FORMS[:4]))
+        for _ in range(r.choice([1, 1, 2, 3])):
+            p = r.randint(0, len(s))
+            s = s[:p] + (UWS[j_ % len(UWS)] if _ == 0 else r.choice(UWS + WS)) + s[p:]
+        real = outcome(utils.parse_nuclide_str, s)
+        rep.case(("ustr", s))
+        rep.dist("variant:unicode-whitespace")
+        if real != ("ok", f"{el}-{A}{st}"):
+            nbad += 1
+            if nbad <= 5:
+                rep.violation("failing-input", f"str {s!r} (with the whitespace character U+{ord(UWS[j_ % len(UWS)]):04X}) resolves to {real}, "
+                              f"expected {el}-{A}{st}", {"call": "parse_nuclide_str", "input": s, "expected": f"{el}-{A}{st}", "observed": real}, True)
 
     # ---- 4. idempotence on the real code, attributes and ids through Nuclide
     names = [f"{el}-{A}{st}" for (Z, el), st, A in itertools.product(elements, states, masses)]
